@@ -390,9 +390,10 @@ ScopeChoices(p) ==
             q \in Positions, fq \in FPositions, f \in Filters(p)}
    ELSE {})
   \cup
+  \* (naming an empty block explicitly is the caller's error, like insert_at on it)
   (IF "single" \in ScopeKinds
    THEN {[kind |-> "single", pos |-> q, fpos |-> "", filt |-> NoFilter, blk |-> i] :
-            q \in Positions, i \in {j \in 1..p.nb : ~IsData(p.tpl[j])}}
+            q \in Positions, i \in {j \in 1..p.nb : ~IsData(p.tpl[j]) /\ p.tpl[j] # "z0"}}
    ELSE {})
 
 \* registrations in registration order: ids run across passes
